@@ -268,11 +268,17 @@ JudgeTomo(r) ==
        \cup C(keys = (IF r.full = 1 THEN {Embed(p, r.list) : p \in expectedKeys} ELSE expectedKeys), "keys")
        \cup C(\A i \in 1..Len(r.values) : r.values[i][4] * WT = E(keyN(i)) * r.values[i][5], "value")
 
-(* CircuitResult(counts, qubits): stored bit strings are the marginals in list order (C11) *)
+(* CircuitResult(counts, qubits): the stored (bit string, count) pairs are the marginal distribution in list order (C11).  *)
+(* Outcomes that coincide on the listed qubits may be kept apart or merged: only the total per marginal outcome matters.   *)
+RECURSIVE SumWhere(_, _, _, _)
+SumWhere(pairs, key(_), m, i) == IF i > Len(pairs) THEN 0
+                                 ELSE (IF key(pairs[i]) = m THEN pairs[i][2] ELSE 0) + SumWhere(pairs, key, m, i + 1)
 JudgeMarginal(r) ==
-   C(Len(r.stored) = Len(r.counts) /\ \A i \in 1..Len(r.counts) :
-        r.stored[i] = <<(IF r.haslist = 1 THEN Marginal(KeyToBits(r.counts[i][1]), r.list) ELSE KeyToBits(r.counts[i][1])), r.counts[i][2]>>, "marginal")
-   \cup C(r.nq = (IF r.haslist = 1 THEN Len(r.list) ELSE r.N), "num-qubits")
+   LET inKey(p) == IF r.haslist = 1 THEN Marginal(KeyToBits(p[1]), r.list) ELSE KeyToBits(p[1])
+       stKey(p) == p[1]
+       ms == {inKey(r.counts[i]) : i \in 1..Len(r.counts)} \cup {r.stored[i][1] : i \in 1..Len(r.stored)}
+   IN  C(\A m \in ms : SumWhere(r.stored, stKey, m, 1) = SumWhere(r.counts, inKey, m, 1), "marginal")
+       \cup C(r.nq = (IF r.haslist = 1 THEN Len(r.list) ELSE r.N), "num-qubits")
 
 Output(r) == IF r.op = "measure" THEN MeasureOutput(r) ELSE {}
 
